@@ -21,7 +21,7 @@
 From Coq Require Import List Arith NArith Bool.
 Import ListNotations.
 Require Import Aiuti.Buffer Aiuti.BufferCore Aiuti.BufferFlag Aiuti.BufferJoin Aiuti.BufferQuiet
-               Aiuti.BufferOnce Aiuti.BufferProgress Aiuti.Case_Buffer Aiuti.Case_C03 Aiuti.BufferMon.
+               Aiuti.BufferOnce Aiuti.BufferProgress Aiuti.Case_Buffer Aiuti.Case_C03 Aiuti.BufferMon Aiuti.BufferMonSound.
 
 (* The function only ever receives arguments that were submitted: every element
    of every set passed to the function in the macro step of event e was handed
@@ -145,6 +145,32 @@ Theorem callset_monitor_sound :
       exists pre' t mid, pre = pre' ++ FnStart c set t :: mid /\ Forall no_call mid.
 Proof. exact csets_sound. Qed.
 Print Assumptions callset_monitor_sound.
+
+(* The walk part of the monitor, read MODEL-FREE: whenever it accepts an (input script, observed
+   trace) pair — the tracker [trk_run trk0] is a function of the script alone —
+     * script and trace have one entry per event, and Hang is never observed;
+     * every element of every set passed to the function had been handed over by the script up to
+       that step (immediate arguments of accepted Submit / FPut, accepted scripted yields);
+     * the set of a failed call is contained in the set of the next call;
+     * if the script lets the buffer settle (all producers closed, then FnOk; Advance>=T; FnOk),
+       everything the script handed over is in a call that ended without error;
+     * own-thread scripts with distinct arguments: no argument in two successful calls. *)
+Theorem walk_monitor_sound :
+  forall (T : N) (evs : list event) (observed : list (list obs)),
+    Case_C03.ok_walk (Case T evs observed) = true ->
+    length evs = length observed /\ ~ In Hang (concat observed) /\
+    (forall epre e epost opre o1 c set t o2 opost,
+       evs = epre ++ e :: epost -> observed = opre ++ (o1 ++ FnStart c set t :: o2) :: opost ->
+       length epre = length opre ->
+       forall x, In x set -> In x (offered_args (trk_run trk0 (epre ++ [e])))) /\
+    (forall pre c f mid c' set' t' rest,
+       concat observed = pre ++ FnEnd c false f :: mid ++ FnStart c' set' t' :: rest -> Forall no_call mid ->
+       forall y, In y f -> In y set') /\
+    (settled T evs = true ->
+       forall x, In x (offered_args (trk_run trk0 evs)) -> In x (ok_sets (concat observed))) /\
+    (own_thread evs = true -> NoDup (offered_args (trk_run trk0 evs)) -> NoDup (ok_sets (concat observed))).
+Proof. exact c03_walk_sound. Qed.
+Print Assumptions walk_monitor_sound.
 
 Theorem monitor_implies_callset_part : forall c, Case_C03.ok c = true -> ok_csets c = true.
 Proof. exact ok_implies_csets. Qed.
